@@ -15,7 +15,7 @@ pub const DEF: PropDef = PropDef {
     run,
     replay,
     level: "exploration",
-    rule: "model-based differential: op sequences over {write i->r, deliver oldest pending i->r, write r->i, deliver r->i, rekey_outgoing / rekey_incoming on either side, rekey_manually(Some/None, Some/None), rekey_initiator_manually, rekey_responder_manually with keys from a 10-element pool (three fresh keys, two of them sharing a 24-byte prefix, the session's two initial keys, all-zero / constant-fill keys and two keys of the form s||s)} - exhaustive to depth 4 (thorough 5) over a 12-symbol core alphabet (one level less for the one-way / K configurations) scenario lists with rekeys (automatic / manual, both sides / one side) issued while the counters stand at each of 13 values incl. 2^64-1 (the caller then moves them back), and random to depth 40 over the full set - for all ciphers x backends (default, ring-first) x stateful/stateless x interactive/one-way. Model: per endpoint and direction one key value, initial keys from the reference model's Split(); auto rekey sets k <- ENCRYPT_ref(k, 2^64-1, '', 0^32)[..32] with the reference AEAD. Oracle: every written message equals ENCRYPT_ref(k_out, n, '', payload) byte for byte; a delivery is accepted iff the sender's key at write time equals the receiver's current key for that direction and the nonce matches; nonces are untouched by any rekey call. Non-trivial = the sequence contains a rekey and a later delivery; distinct by (config, sequence)",
+    rule: "model-based differential: op sequences over {write i->r, deliver oldest pending i->r, write r->i, deliver r->i, rekey_outgoing / rekey_incoming on either side, rekey_manually(Some/None, Some/None), rekey_initiator_manually, rekey_responder_manually with keys from a 10-element pool (three fresh keys, two of them sharing a 24-byte prefix, the session's two initial keys, all-zero / constant-fill keys and two keys of the form s||s)} - exhaustive to depth 4 (thorough 5) over a 12-symbol core alphabet (one level less for the one-way / K configurations) scenario lists with rekeys (automatic / manual, both sides / one side) issued while the counters stand at each of 13 values incl. 2^64-1 (the caller then moves them back), and random to depth 40 over the full set - for all ciphers x backends (default, ring-first, and a pass-through cipher wrapper that relies on the Cipher trait's PROVIDED rekey) x stateful/stateless x interactive/one-way. Model: per endpoint and direction one key value, initial keys from the reference model's Split(); auto rekey sets k <- ENCRYPT_ref(k, 2^64-1, '', 0^32)[..32] with the reference AEAD. Oracle: every written message equals ENCRYPT_ref(k_out, n, '', payload) byte for byte; a delivery is accepted iff the sender's key at write time equals the receiver's current key for that direction and the nonce matches; nonces are untouched by any rekey call. Non-trivial = the sequence contains a rekey and a later delivery; distinct by (config, sequence)",
     technique: "model-based differential testing against the reference AEAD/REKEY (unwrapped real backends); bounded-exhaustive + proptest",
     assumptions: &["REKEY is validated against the specification text only (section 4.2); no third-party vectors exist for it"],
     panic_is_violation: false,
@@ -64,7 +64,7 @@ fn oracle(c: &Case, acc: &mut Acc) -> CaseResult {
     let suites = all_suites();
     let suite = suites[c.suite_idx % suites.len()];
     let mut spec = SessionSpec::simple(HsName { pattern: c.pattern.clone(), psks: vec![] }, suite, c.seed);
-    if ring_covers(suite) {
+    if ring_covers(suite) || matches!(c.backend, Backend::PassThrough | Backend::OwnRekey) {
         spec.backend_i = c.backend;
         spec.backend_r = c.backend;
     }
@@ -319,6 +319,14 @@ pub fn run(ctx: &Ctx) {
             }
         }
     }
+    // a cipher supplied by the application that relies on the trait's PROVIDED rekey (pass-through
+    // wrapper): the REKEY definition must hold there too (these run one level less deep)
+    for (si, s) in suites.iter().enumerate() {
+        if s.dh == crate::refcrypto::DhKind::X25519 && s.hash == crate::refcrypto::HashKind::Sha256 {
+            cfgs.push((si, Backend::PassThrough, false, "XX"));
+            cfgs.push((si, Backend::PassThrough, true, "XX"));
+        }
+    }
     // the NN configurations get the full depth, the one-way / K ones one level less
     let per_cfg_short: usize = (0..depth).map(|l| alpha.len().pow(l as u32)).sum();
     let deep: Vec<_> = cfgs.iter().filter(|c| c.3 == "NN").cloned().collect();
@@ -417,7 +425,7 @@ pub fn run(ctx: &Ctx) {
             (prop_oneof![3 => Just("NN"), 1 => Just("N"), 1 => Just("XX"), 1 => Just("K")], 0usize..24, any::<bool>(), any::<bool>(), prop::collection::vec(op, 0..40), any::<u64>()).prop_map(|(p, suite_idx, ring, stateless, ops, seed)| Case {
                 pattern: p.to_string(),
                 suite_idx,
-                backend: if ring { Backend::RingFirst } else { Backend::Default },
+                backend: if ring { Backend::RingFirst } else if seed % 5 == 0 { Backend::PassThrough } else { Backend::Default },
                 stateless,
                 ops,
                 seed,
